@@ -22,6 +22,9 @@ import (
 
 const reqTimeout = 8 * time.Second
 
+// noChainPin makes the next newExchange build a client without WithChainID.
+var noChainPin bool
+
 // item is one thing a scripted peer writes on the stream.
 type item struct {
 	status p2p_pb.StatusCode
@@ -144,8 +147,10 @@ func newExchange(t *testing.T, host libhost.Host, trusted []peer.ID, chunk uint6
 	}
 	opts := []p2p.Option[p2p.ClientParameters]{
 		p2p.WithNetworkID[p2p.ClientParameters](networkID),
-		p2p.WithChainID(networkID),
 		p2p.WithRequestTimeout[p2p.ClientParameters](reqTimeout),
+	}
+	if !noChainPin {
+		opts = append(opts, p2p.WithChainID(networkID))
 	}
 	if chunk > 0 {
 		opts = append(opts, p2p.WithMaxHeadersPerRangeRequest(chunk))
